@@ -18,6 +18,13 @@ ROOT = os.path.dirname(os.path.dirname(os.path.abspath(__file__)))
 REPO = "/repo"
 
 
+# reverts that are behaviourally neutral at the current head (analysed in DESIGN.md 7): reported as such, not as a miss
+SUPERSEDED = {
+    "129ec84": "superseded by 30ee3d6: the graph position of repeated copies no longer depends on which of equally late leaves "
+               "MultiRelationLink.reference_node returns (its start time is the same for both); C01, C02, C06, C07, C10, C11 silent",
+}
+
+
 def sh(cmd, **kw):
     return subprocess.run(cmd, shell=True, capture_output=True, text=True, **kw)
 
@@ -72,6 +79,9 @@ def main():
         finally:
             sh(f"git -C {REPO} worktree remove --force {wt}")
             shutil.rmtree(wt, ignore_errors=True)
+        if entry.get("status") == "MISSED" and commit in SUPERSEDED:
+            entry["status"] = "neutral at this head"
+            entry["note"] = SUPERSEDED[commit]
         print(json.dumps(entry), flush=True)
         results[commit] = entry
         json.dump(results, open(out_path, "w"), indent=1)
